@@ -717,8 +717,13 @@ class MainTransformer(object):
 
         type_annotation = annotations.get(ANN_TYPE)
         if type_annotation:
-            node.type = self._resolve_toplevel(type_annotation[0],
-                                               node.type, node, parent)
+            annotated_type = self._resolve_toplevel(type_annotation[0],
+                                                    node.type, node, parent)
+            # A type that does not resolve has been reported; the declared
+            # type (with its element types) is kept rather than replaced by
+            # an unresolved one
+            if annotated_type.resolved:
+                node.type = annotated_type
 
         caller_allocates = False
         annotated_direction = None
